@@ -1,112 +1,138 @@
-import BumpProof.Lemmas.LedgerFail
+import BumpProof.Lemmas.LedgerReplay
 set_option linter.unusedSimpArgs false
 set_option linter.unusedVariables false
 namespace Ledger
 open Arena Rs
 
-/-- the slow path with a refusing base allocator, when no existing chunk has room: an error value -/
-theorem inAnotherChunk_fail {cfg : Cfg} {k : Kind} {s : State} {L : Layout} {h : Hints} {rest : List BaseResp}
-    (hH : Spec.HeaderOK cfg.hdr) (hmin : cfg.minChunk < 2^64) (hL : L.Valid)
-    (hr : s.resps = .fail :: rest)
-    (hw : ∀ i, s.cur = .chunk i → i < s.chunks.length ∧
-      ∃ s1, walkNext cfg k L h (s.chunks.length - (i+1)) i s = .ok (none, s1)) :
-    ∃ s' e, inAnotherChunk cfg k s L h = .ok (s', .error e) := by
-  rw [inAnotherChunk_eq]
-  obtain ⟨cu, hcur⟩ : ∃ cu, s.cur = cu := ⟨_, rfl⟩
-  cases cu with
-  | claimed => simp only [hcur]; exact ⟨_, _, rfl⟩
-  | unallocated =>
-    simp only [hcur]
-    obtain ⟨s1, e1, h1⟩ := newChunkForCapacity_fail (s := s) (L := L) hH hmin hL hr
-    rw [h1]
-    exact ⟨_, _, rfl⟩
-  | chunk i =>
-    simp only [hcur]
-    obtain ⟨hi, s1, h1⟩ := hw i hcur
-    rw [h1]
-    simp only [bind_ok]
-    obtain ⟨w1, w2, w3, _⟩ := walkNext_frame _ _ _ h1
-    have hne : s1.chunks ≠ [] := by
-      intro h0
-      rw [h0] at w3
-      simp only [List.length_nil] at w3
-      omega
-    obtain ⟨s2, e2, h2⟩ := appendFor_fail (s := s1) (L := L) hH hmin hL hne (w2.trans hr)
-    rw [h2]
-    exact ⟨_, _, rfl⟩
+theorem resetPos_samePlace (cfg : Cfg) {c c' : Chunk} (h : SamePlace c c') :
+    SamePlace (c.resetPos cfg) (c'.resetPos cfg) ∧ (c'.resetPos cfg).pos = (c.resetPos cfg).pos := by
+  refine ⟨h, ?_⟩
+  show (if cfg.up then c'.contentStart cfg else c'.contentEnd cfg) = (if cfg.up then c.contentStart cfg else c.contentEnd cfg)
+  rw [contentStart_congr cfg h, contentEnd_congr cfg h]
 
-theorem allocGeneric_fail {cfg : Cfg} {k : Kind} {s : State} {L : Layout} {h hs : Hints} {rest : List BaseResp}
-    (hH : Spec.HeaderOK cfg.hdr) (hmin : cfg.minChunk < 2^64) (hL : L.Valid)
-    (hr : s.resps = .fail :: rest)
-    (hfast : tryCur cfg k s L h = .ok none)
-    (hw : ∀ i, s.cur = .chunk i → i < s.chunks.length ∧
-      ∃ s1, walkNext cfg k L hs (s.chunks.length - (i+1)) i s = .ok (none, s1)) :
-    ∃ s' e, allocGeneric cfg k s L h hs = .ok (s', .error e) := by
-  unfold allocGeneric
-  rw [hfast]
-  exact inAnotherChunk_fail hH hmin hL hr hw
+/-- entering chunk `i+1` in two states of which the second covers the first -/
+theorem Sim.enter (cfg : Cfg) {s t : State} {i : Nat} {c c' : Chunk} (h : Cov s t)
+    (hc : s.chunks[i+1]? = some c) (hc' : t.chunks[i+1]? = some c') (sp : SamePlace c c') :
+    Sim { s with chunks := s.chunks.set (i+1) (c.resetPos cfg), cur := .chunk (i+1) }
+        { t with chunks := t.chunks.set (i+1) (c'.resetPos cfg), cur := .chunk (i+1) } := by
+  obtain ⟨hm, hcov⟩ := h
+  have hls := (List.getElem?_eq_some_iff.1 hc).1
+  have hlt := (List.getElem?_eq_some_iff.1 hc').1
+  refine ⟨⟨hm, ?_⟩, rfl, ?_⟩
+  · intro j x hx
+    show ∃ y, (t.chunks.set (i+1) (c'.resetPos cfg))[j]? = some y ∧ _
+    have hx' : (s.chunks.set (i+1) (c.resetPos cfg))[j]? = some x := hx
+    rw [List.getElem?_set] at hx' ⊢
+    by_cases hij : i + 1 = j
+    · simp only [hij, ↓reduceIte] at hx' ⊢
+      subst hij
+      simp only [hls, hlt, ↓reduceIte, Option.some.injEq] at hx' ⊢
+      subst hx'
+      exact ⟨_, rfl, (resetPos_samePlace cfg sp).1⟩
+    · simp only [hij, ↓reduceIte] at hx' ⊢
+      exact hcov j x hx'
+  · intro i' x hi' hx
+    simp only [Cur.chunk.injEq] at hi'
+    subst hi'
+    have hx' : (s.chunks.set (i+1) (c.resetPos cfg))[i+1]? = some x := hx
+    show ∃ y, (t.chunks.set (i+1) (c'.resetPos cfg))[i+1]? = some y ∧ _
+    rw [List.getElem?_set] at hx' ⊢
+    simp only [↓reduceIte, hls, hlt, Option.some.injEq] at hx' ⊢
+    subst hx'
+    exact ⟨_, rfl, (resetPos_samePlace cfg sp).2⟩
 
-theorem alloc_fail {cfg : Cfg} {s : State} {L : Layout} {rest : List BaseResp}
-    (hH : Spec.HeaderOK cfg.hdr) (hmin : cfg.minChunk < 2^64) (hL : L.Valid)
-    (hr : s.resps = .fail :: rest)
-    (hfast : tryCur cfg .alloc s L Hints.custom = .ok none)
-    (hw : ∀ i, s.cur = .chunk i → i < s.chunks.length ∧
-      ∃ s1, walkNext cfg .alloc L Hints.custom (s.chunks.length - (i+1)) i s = .ok (none, s1)) :
-    ∃ s' e, alloc cfg s L = .ok (s', .error e) := by
-  unfold alloc
-  obtain ⟨s', e, h1⟩ := allocGeneric_fail (hs := Hints.custom) hH hmin hL hr hfast hw
-  rw [h1]
-  exact ⟨_, _, rfl⟩
+theorem CovC.set_reset (cfg : Cfg) {l : List Chunk} {j : Nat} {c : Chunk} (hc : l[j]? = some c) :
+    CovC l (l.set j (c.resetPos cfg)) := by
+  intro k x hx
+  rw [List.getElem?_set]
+  have hl := (List.getElem?_eq_some_iff.1 hc).1
+  by_cases hjk : j = k
+  · subst hjk
+    rw [hc] at hx; cases hx
+    simp only [↓reduceIte, hl]
+    exact ⟨_, rfl, SamePlace.refl _⟩
+  · simp only [hjk, ↓reduceIte]
+    exact ⟨x, hx, SamePlace.refl x⟩
 
-/-- a size of at most `isize::MAX` with alignment 1 is a valid layout -/
-theorem valid_of_layoutOk {n : Nat} (h : layoutOk n 1 = true) : ({ size := n, align := 1 } : Layout).Valid := by
-  unfold layoutOk at h
-  exact ⟨⟨0, by decide, rfl⟩, of_decide_eq_true h⟩
-
-/-- `reserve` with a refusing base allocator never faults; if it reports success nothing was needed
-    and nothing changed -/
-theorem reserve_fail {cfg : Cfg} {s : State} {add : Nat} {rest : List BaseResp}
-    (hH : Spec.HeaderOK cfg.hdr) (hmin : cfg.minChunk < 2^64)
-    (hr : s.resps = .fail :: rest)
-    (hi : ∀ i, s.cur = .chunk i → i < s.chunks.length) :
-    ∃ s' r, reserve cfg s add = .ok (s', r) ∧ (r = .ok () → s' = s) := by
-  unfold reserve
-  obtain ⟨cu, hcur⟩ : ∃ cu, s.cur = cu := ⟨_, rfl⟩
-  cases cu with
-  | claimed => simp only [hcur]; exact ⟨_, _, rfl, fun _ => rfl⟩
-  | unallocated =>
-    simp only [hcur]
-    cases hl : layoutOk add 1 with
-    | false => simp only [Bool.not_false, ↓reduceIte]; exact ⟨_, _, rfl, fun _ => rfl⟩
-    | true =>
-      simp only [Bool.not_true, Bool.false_eq_true, ↓reduceIte]
-      obtain ⟨s1, e1, h1⟩ := newChunkForCapacity_fail (s := s) hH hmin (valid_of_layoutOk hl) hr
-      rw [h1]
-      exact ⟨_, _, rfl, fun h => by cases h⟩
-  | chunk i =>
-    simp only [hcur]
-    have hlt := hi i hcur
-    rw [List.getElem?_eq_getElem hlt]
-    simp only
-    cases Rs.checked_sub add (s.chunks[i].remaining cfg) with
-    | none => exact ⟨_, _, rfl, fun _ => rfl⟩
-    | some r1 =>
-      simp only
-      cases walkReserve cfg s.chunks (s.chunks.length - (i + 1)) i r1 with
-      | none => exact ⟨_, _, rfl, fun _ => rfl⟩
-      | some r2 =>
-        simp only
-        by_cases h0 : r2 = 0
-        · simp only [h0, ↓reduceIte]; exact ⟨_, _, rfl, fun _ => rfl⟩
-        · simp only [h0, ↓reduceIte]
-          cases hl : layoutOk r2 1 with
-          | false => simp only [Bool.not_false, ↓reduceIte]; exact ⟨_, _, rfl, fun _ => rfl⟩
-          | true =>
-            simp only [Bool.not_true, Bool.false_eq_true, ↓reduceIte]
-            have hne : s.chunks ≠ [] := by
-              intro h0; rw [h0] at hlt; simp only [List.length_nil] at hlt; omega
-            obtain ⟨s1, e1, h1⟩ := appendFor_fail (s := s) hH hmin (valid_of_layoutOk hl) hne hr
-            rw [h1]
-            exact ⟨_, _, rfl, fun h => by cases h⟩
+/-- `walkNext` in a state `t` that covers `s` takes the same decisions as in `s` for all chunks of `s`:
+    (a) if it finds room in `s` it finds the same room in `t`;
+    (b) if it finds none in `s`, the walk in `t` continues behind the chunks of `s`. -/
+theorem walkNext_mirror {cfg : Cfg} {k : Kind} {L : Layout} {hh : Hints} :
+    ∀ (n i : Nat) (s t : State) (ft : Nat), Cov s t → s.chunks.length = i + 1 + n → n ≤ ft →
+    (∀ v s' s2, walkNext cfg k L hh n i s = .ok (some (v, s'), s2) →
+      ∃ t', walkNext cfg k L hh ft i t = .ok (some (v, t'), t') ∧ Sim s' t' ∧ t'.reqs = t.reqs ∧
+        t'.resps = t.resps ∧ CovC t.chunks t'.chunks ∧ t'.chunks.length = t.chunks.length) ∧
+    (∀ s', walkNext cfg k L hh n i s = .ok (none, s') →
+      ∃ t', walkNext cfg k L hh ft i t = walkNext cfg k L hh (ft - n) (i + n) t' ∧ Cov s' t' ∧ t'.reqs = t.reqs ∧
+        t'.resps = t.resps ∧ CovC t.chunks t'.chunks ∧ t'.chunks.length = t.chunks.length) := by
+  intro n
+  induction n with
+  | zero =>
+    intro i s t ft hcov hlen hft
+    refine ⟨fun v s' s2 e => ?_, fun s' e => ?_⟩
+    · simp only [walkNext, pure_eq_ok, Except.ok.injEq, Prod.mk.injEq] at e
+      cases e.1
+    · simp only [walkNext, pure_eq_ok, Except.ok.injEq, Prod.mk.injEq] at e
+      obtain ⟨_, rfl⟩ := e
+      exact ⟨t, rfl, hcov, rfl, rfl, CovC.refl _, rfl⟩
+  | succ n ih =>
+    intro i s t ft hcov hlen hft
+    obtain ⟨ft', rfl⟩ : ∃ ft', ft = ft' + 1 := ⟨ft - 1, by omega⟩
+    have hi1 : i + 1 < s.chunks.length := by omega
+    have hc : s.chunks[i+1]? = some s.chunks[i+1] := List.getElem?_eq_getElem hi1
+    obtain ⟨c', hc', sp⟩ := hcov.2 (i+1) _ hc
+    have hsim := Sim.enter cfg hcov hc hc' sp
+    have hok : CurOK { s with chunks := s.chunks.set (i+1) ((s.chunks[i+1]).resetPos cfg), cur := Cur.chunk (i+1) } := by
+      intro j hj
+      simp only [Cur.chunk.injEq] at hj
+      subst hj
+      show i + 1 < (s.chunks.set (i+1) _).length
+      rw [List.length_set]; exact hi1
+    obtain ⟨m1, m2⟩ := tryCur_mirror (cfg := cfg) (k := k) (L := L) (hh := hh) hsim hok
+    have hcovt : CovC t.chunks (t.chunks.set (i+1) (c'.resetPos cfg)) := CovC.set_reset cfg hc'
+    have hlent : (t.chunks.set (i+1) (c'.resetPos cfg)).length = t.chunks.length := List.length_set
+    refine ⟨fun v s' s2 e => ?_, fun s' e => ?_⟩
+    · unfold walkNext at e ⊢
+      simp only [hc, hc'] at e ⊢
+      obtain ⟨o, ho, e⟩ := bind_eq_ok e
+      cases o with
+      | some r =>
+        simp only [pure_eq_ok, Except.ok.injEq, Prod.mk.injEq, Option.some.injEq] at e
+        obtain ⟨rfl, rfl⟩ := e
+        obtain ⟨t', ht', g1, g2, g3, g4, g5⟩ := m2 v s' ho
+        refine ⟨t', ?_, g1, g2, g3, hcovt.trans g4, g5.trans hlent⟩
+        rw [ht']; rfl
+      | none =>
+        simp only at e
+        rw [m1 ho]
+        simp only [bind_ok]
+        have hlen' : ({ s with chunks := s.chunks.set (i+1) ((s.chunks[i+1]).resetPos cfg), cur := Cur.chunk (i+1) } : State).chunks.length
+            = (i + 1) + 1 + n := by
+          show (s.chunks.set (i+1) _).length = _
+          rw [List.length_set]; omega
+        obtain ⟨a1, _⟩ := ih (i+1) _ _ ft' hsim.1 hlen' (by omega)
+        obtain ⟨t', ht', g1, g2, g3, g4, g5⟩ := a1 v s' s2 e
+        exact ⟨t', ht', g1, g2, g3, hcovt.trans g4, g5.trans hlent⟩
+    · unfold walkNext at e
+      simp only [hc] at e
+      obtain ⟨o, ho, e⟩ := bind_eq_ok e
+      cases o with
+      | some r =>
+        simp only [pure_eq_ok, Except.ok.injEq, Prod.mk.injEq] at e
+        cases e.1
+      | none =>
+        simp only at e
+        have hlen' : ({ s with chunks := s.chunks.set (i+1) ((s.chunks[i+1]).resetPos cfg), cur := Cur.chunk (i+1) } : State).chunks.length
+            = (i + 1) + 1 + n := by
+          show (s.chunks.set (i+1) _).length = _
+          rw [List.length_set]; omega
+        obtain ⟨_, a2⟩ := ih (i+1) _ _ ft' hsim.1 hlen' (by omega)
+        obtain ⟨t', ht', g1, g2, g3, g4, g5⟩ := a2 s' e
+        refine ⟨t', ?_, g1, g2, g3, hcovt.trans g4, g5.trans hlent⟩
+        have e1 : ft' + 1 - (n + 1) = ft' - n := by omega
+        have e2 : i + (n + 1) = i + 1 + n := by omega
+        rw [e1, e2, ← ht']
+        conv => lhs; unfold walkNext
+        simp only [hc', m1 ho, bind_ok]
 
 end Ledger
